@@ -1,6 +1,549 @@
-import NimaVerif.Model.Edit
-/-! # C14 — placeholder until the theorems are in. -/
+import NimaVerif.Lemmas.MappingLaws
+/-!
+# C14 — the mapping API obeys the dictionary laws, and the text agrees with the mapping
+
+Model: `setGetItem` / `setSetItem` / `setDelItem` (`AttributeSet.__getitem__/__setitem__/__delitem__`)
+and `scopeGetItem` / `scopeSetItem` / `scopeDelItem` (`Scope.__*item__` on `target.scope`) of
+`Model/Edit.lean`. SPEC (in `Model/MappingSpec.lean`): `keysMap`, `keysText`, `Coherent`, `NoEntries`,
+`Synced`, `Good`, `DocGood`, `MapOp`, `runOps`, `PlainKey`, `DistinctItems`.
+
+The document-level statements are about the document's target set (`NixSourceCode.__*item__`
+delegates to it); the invariant statements are about **every** set object of the document, so they
+cover sets reached through nested lookups (`src["a"]["b"] = v`) too.
+
+Hypotheses that are used and why they are satisfiable:
+* `DistinctItems vs` (decidable): the items of one `values` list are distinct Python objects, none
+  stored inside another — true of every parsed tree (objects are created once); `exDoc` has it.
+* `PlainKey k` (decidable): the key is not a dotted path (`__getitem__` falls back to a walk for
+  `"a.b"`; after `del m["a.b"]` of a binding literally named `a.b` the walk may still succeed).
+* `(keysMap s).count k ≤ 1` (decidable): the name is defined once — two definitions of one name
+  are invalid Nix (`cex_get_after_del_duplicate` shows the law fails without it).
+* `Good s` = `NoEntries s ∧ Synced s` (decidable): `attrpath_order` has no `_AttrpathEntry` and is
+  empty or lists exactly the objects of `values`; established by the parser for every set without
+  attrpath-derived bindings (`good_of_parse`) and by `from_dict` / new nested sets (empty order).
+-/
 namespace Nima.C14
-theorem get_missing_is_keyerror (d : Doc) (k : Text) (h : findBinding d.scope k = none) :
-    scopeGetItem d k = .error .key := by simp [scopeGetItem, h]
+
+open Node
+
+/-! ## 0. `keysMap` is what `__getitem__` answers at the top level -/
+
+theorem keysMap_iff_top (s : Node) (hne : noEntriesL s.setValues = true) (k : Text) :
+    k ∈ keysMap s ↔
+      (findBinding s.setValues k).isSome = true ∨ inheritMentions s.setValues k = true :=
+  mem_keysOf_iff_top hne k
+
+/-- every name of `keysMap` is answered -/
+theorem keysMap_answered (s : Node) (hne : noEntriesL s.setValues = true) (k : Text)
+    (h : k ∈ keysMap s) : ∃ v, setGetItem s k = .ok v := by
+  rcases (keysMap_iff_top s hne k).1 h with h | h
+  · cases hb : findBinding s.setValues k with
+    | none => simp [hb] at h
+    | some b =>
+      obtain ⟨v, hv⟩ := isBind_bindValue (findBinding_some hb).2.1
+      exact ⟨v, by simp [setGetItem, hb, hv]⟩
+  · cases hb : findBinding s.setValues k with
+    | some b =>
+      obtain ⟨v, hv⟩ := isBind_bindValue (findBinding_some hb).2.1
+      exact ⟨v, by simp [setGetItem, hb, hv]⟩
+    | none => exact ⟨.ident k, by simp [setGetItem, hb, h]⟩
+
+/-- and a plain key that is answered is a name of `keysMap` -/
+theorem answered_plain_in_keysMap (s : Node) (k : Text) (hp : PlainKey k = true) (v : Node)
+    (h : setGetItem s k = .ok v) : k ∈ keysMap s := by
+  rw [setGetItem_plain s k hp] at h
+  cases hb : findBinding s.setValues k with
+  | some b => exact mem_keysOf_of_findBinding hb
+  | none =>
+    rw [hb] at h
+    by_cases hi : inheritMentions s.setValues k = true
+    · exact mem_keysOf_of_inherit hi
+    · simp [hi] at h
+
+/-! ## 1. Dictionary laws on a set (the document's target) -/
+
+/-- `m[k] = v` succeeds on every set -/
+theorem setitem_ok (d : Doc) (k : Text) (v : Node) (hs : d.target.isSet = true) :
+    (setSetItem d.target k v d).1 = .ok () := by
+  obtain ⟨sid, vs, o, m, r, ht⟩ := target_set hs
+  cases hb : findBinding d.target.setValues k with
+  | some b =>
+    obtain ⟨bid, hid⟩ := isBind_bindId (findBinding_some hb).2.1
+    rw [setSetItem_existing v d hb hid]
+  | none => rw [setSetItem_new v d hb (sid := sid) (by simp [ht, setSid?])]
+
+/-- get-after-set: `m[k] = v; m[k]` is `v` -/
+theorem get_after_set (d : Doc) (k : Text) (v : Node) (hs : d.target.isSet = true) :
+    setGetItem (setSetItem d.target k v d).2.target k = .ok v := by
+  obtain ⟨sid, vs, o, m, r, ht⟩ := target_set hs
+  cases hb : findBinding d.target.setValues k with
+  | some b =>
+    obtain ⟨bid, hid⟩ := isBind_bindId (findBinding_some hb).2.1
+    obtain ⟨b', h1, h2⟩ := findBinding_updBindL_value v hb hid
+    simp only [setGetItem, set_existing_values v hb hid, h1, h2]
+  | none =>
+    have hb' : findBinding vs k = none := by simpa [ht, setValues] using hb
+    simp only [setGetItem, set_new_values v ht hb,
+      findBinding_append_new vs (.bind d.next k false v [] []) k rfl rfl hb', bindValue?]
+
+/-- the names after `m[k] = v`: unchanged when `k` was bound, `k` appended otherwise
+    (in particular the count of every other name is unchanged) -/
+theorem keysMap_after_set (d : Doc) (k : Text) (v : Node) (hs : d.target.isSet = true) :
+    keysMap (setSetItem d.target k v d).2.target =
+      if (findBinding d.target.setValues k).isSome then keysMap d.target
+      else keysMap d.target ++ [k] := by
+  obtain ⟨sid, vs, o, m, r, ht⟩ := target_set hs
+  cases hb : findBinding d.target.setValues k with
+  | some b =>
+    obtain ⟨bid, hid⟩ := isBind_bindId (findBinding_some hb).2.1
+    simp [keysMap, set_existing_values v hb hid]
+  | none =>
+    have hv := set_new_values v ht hb
+    simp only [keysMap, hv]
+    simp [ht, setValues, keysOf, itemKeys]
+
+/-- other keys' lookups are unchanged by `m[k] = v` -/
+theorem set_other_lookups (d : Doc) (k k' : Text) (v : Node) (hs : d.target.isSet = true)
+    (hd : DistinctItems d.target.setValues = true) (hk : k' ≠ k) (hp : PlainKey k' = true) :
+    setGetItem (setSetItem d.target k v d).2.target k' = setGetItem d.target k' := by
+  obtain ⟨sid, vs, o, m, r, ht⟩ := target_set hs
+  rw [setGetItem_plain _ k' hp, setGetItem_plain _ k' hp]
+  cases hb : findBinding d.target.setValues k with
+  | some b =>
+    obtain ⟨bid, hid⟩ := isBind_bindId (findBinding_some hb).2.1
+    rw [set_existing_values v hb hid, findBinding_updBindL_other hd v hb hid hk,
+      inheritMentions_updBindL]
+  | none =>
+    rw [set_new_values v ht hb, findBinding_append_of_ne vs (.bind d.next k false v [] []) k k' rfl hk,
+      inheritMentions_append_bind vs k' rfl]
+    simp [ht, setValues]
+
+/-- every key without `.`, `"` and `$` is plain (so the side condition `PlainKey` is met by all
+    identifier-like names) -/
+theorem plainKey_simple (k : Text) (h : ∀ c ∈ k, c ≠ '.' ∧ c ≠ '"' ∧ c ≠ '$') : PlainKey k = true :=
+  plainKey_of_simple k h
+
+/-- `del m[k]` / `m[k]` of a missing key: KeyError, state unchanged (lookups are pure) -/
+theorem del_missing (s : Node) (k : Text) (d : Doc) (h : findBinding s.setValues k = none) :
+    setDelItem s k d = (.error .key, d) := setDelItem_missing d h
+
+theorem get_missing (s : Node) (k : Text) (hp : PlainKey k = true) (h : k ∉ keysMap s) :
+    setGetItem s k = .error .key := by
+  rw [setGetItem_plain s k hp, findBinding_none_of_not_mem h, inheritMentions_false_of_not_mem h]
+  rfl
+
+/-- get-after-del: `del m[k]; m[k]` is KeyError, for a name that was defined once -/
+theorem get_after_del (d : Doc) (k : Text) (hok : (setDelItem d.target k d).1 = .ok ())
+    (hd : DistinctItems d.target.setValues = true) (hu : (keysMap d.target).count k ≤ 1)
+    (hp : PlainKey k = true) :
+    setGetItem (setDelItem d.target k d).2.target k = .error .key := by
+  obtain ⟨sid, o, m, r, b, bid, l₁, l₂, ht, hbb, hbn, _, hv⟩ := del_shape hok hd
+  apply get_missing _ _ hp
+  simp only [keysMap, hv]
+  simp only [keysMap, ht, setValues, keysOf_split l₁ l₂ hbb hbn, List.count_append,
+    List.count_cons_self] at hu
+  have h1 : (keysOf l₁).count k = 0 := by omega
+  have h2 : (keysOf l₂).count k = 0 := by omega
+  rw [keysOf_append, List.mem_append]
+  rintro (h | h)
+  · exact absurd (List.count_pos_iff.2 h) (by omega)
+  · exact absurd (List.count_pos_iff.2 h) (by omega)
+
+/-- `del m[k]` removes one occurrence of `k` from the names and leaves every other count alone -/
+theorem keysMap_after_del (d : Doc) (k : Text) (hok : (setDelItem d.target k d).1 = .ok ())
+    (hd : DistinctItems d.target.setValues = true) (k' : Text) :
+    (keysMap (setDelItem d.target k d).2.target).count k' =
+      (keysMap d.target).count k' - (if k' = k then 1 else 0) := by
+  obtain ⟨sid, o, m, r, b, bid, l₁, l₂, ht, hbb, hbn, _, hv⟩ := del_shape hok hd
+  simp only [keysMap, hv]
+  simp only [ht, setValues, keysOf_split l₁ l₂ hbb hbn, keysOf_append, List.count_append,
+    List.count_cons]
+  by_cases h : k' = k
+  · subst h; simp
+  · have : (k == k') = false := by simp [beq_eq_false_iff_ne]; exact fun e => h e.symm
+    simp [h, this]
+
+/-- other keys' lookups are unchanged by `del m[k]` -/
+theorem del_other_lookups (d : Doc) (k k' : Text) (hok : (setDelItem d.target k d).1 = .ok ())
+    (hd : DistinctItems d.target.setValues = true) (hk : k' ≠ k) (hp : PlainKey k' = true) :
+    setGetItem (setDelItem d.target k d).2.target k' = setGetItem d.target k' := by
+  obtain ⟨sid, o, m, r, b, bid, l₁, l₂, ht, hbb, hbn, _, hv⟩ := del_shape hok hd
+  rw [setGetItem_plain _ k' hp, setGetItem_plain _ k' hp, hv]
+  simp only [ht, setValues]
+  rw [findBinding_remove_other l₁ l₂ hbn hk, inheritMentions_remove_bind l₁ l₂ k' hbb]
+
+/-- The uniqueness hypothesis of `get_after_del` is needed: in `{ a = 1; a = 2; }` (a duplicate
+    definition — invalid Nix, accepted by the parser) the second `a` answers after the delete. -/
+def dupDoc : Doc :=
+  { target := .set 1 [.bind 2 "a".toList false (.atom "1".toList) [] [],
+                      .bind 3 "a".toList false (.atom "2".toList) [] []]
+                     [.bind 2 "a".toList false (.atom "1".toList) [] [],
+                      .bind 3 "a".toList false (.atom "2".toList) [] []] false false, next := 4 }
+
+theorem cex_get_after_del_duplicate :
+    (setDelItem dupDoc.target "a".toList dupDoc).1 = .ok () ∧
+    setGetItem (setDelItem dupDoc.target "a".toList dupDoc).2.target "a".toList =
+      .ok (.atom "2".toList) := by decide
+
+/-! ## 2. Dictionary laws on the scope mapping (`target.scope`) -/
+
+theorem scope_get_after_set (d : Doc) (k : Text) (v : Node) :
+    (scopeSetItem k v d).1 = .ok () ∧ scopeGetItem (scopeSetItem k v d).2 k = .ok v := by
+  cases hb : findBinding d.scope k with
+  | some b =>
+    obtain ⟨bid, hid⟩ := isBind_bindId (findBinding_some hb).2.1
+    rw [scopeSetItem_existing v d hb hid]
+    obtain ⟨b', h1, h2⟩ := findBinding_updBindL_value v hb hid
+    simp [scopeGetItem, Doc.updBind, h1, h2]
+  | none =>
+    rw [scopeSetItem_new v d hb]
+    simp [scopeGetItem, findBinding_append_new d.scope (.bind d.next k false v [] []) k rfl rfl hb, bindValue?]
+
+theorem scope_set_other_lookups (d : Doc) (k k' : Text) (v : Node)
+    (hd : DistinctItems d.scope = true) (hk : k' ≠ k) :
+    scopeGetItem (scopeSetItem k v d).2 k' = scopeGetItem d k' := by
+  cases hb : findBinding d.scope k with
+  | some b =>
+    obtain ⟨bid, hid⟩ := isBind_bindId (findBinding_some hb).2.1
+    rw [scopeSetItem_existing v d hb hid]
+    simp only [scopeGetItem, Doc.updBind]
+    rw [findBinding_updBindL_other hd v hb hid hk]
+  | none =>
+    rw [scopeSetItem_new v d hb]
+    simp only [scopeGetItem]
+    rw [findBinding_append_of_ne d.scope (.bind d.next k false v [] []) k k' rfl hk]
+
+theorem scope_del_missing (d : Doc) (k : Text) (h : findBinding d.scope k = none) :
+    scopeDelItem k d = (.error .key, d) ∧ scopeGetItem d k = .error .key := by
+  rw [scopeDelItem_missing d h]
+  simp [scopeGetItem, h]
+
+theorem scope_get_after_del (d : Doc) (k : Text) (hok : (scopeDelItem k d).1 = .ok ())
+    (hd : DistinctItems d.scope = true) (hu : (keysMapScope d).count k ≤ 1) :
+    scopeGetItem (scopeDelItem k d).2 k = .error .key := by
+  obtain ⟨b, l₁, l₂, hs, hbb, hbn, hv⟩ := scope_del_shape hok hd
+  simp only [keysMapScope, hs, keysOf_split l₁ l₂ hbb hbn, List.count_append,
+    List.count_cons_self] at hu
+  have hnot : k ∉ keysOf (l₁ ++ l₂) := by
+    rw [keysOf_append, List.mem_append]
+    rintro (h | h)
+    · exact absurd (List.count_pos_iff.2 h) (by omega)
+    · exact absurd (List.count_pos_iff.2 h) (by omega)
+  simp [scopeGetItem, hv, findBinding_none_of_not_mem hnot]
+
+theorem scope_del_other_lookups (d : Doc) (k k' : Text) (hok : (scopeDelItem k d).1 = .ok ())
+    (hd : DistinctItems d.scope = true) (hk : k' ≠ k) :
+    scopeGetItem (scopeDelItem k d).2 k' = scopeGetItem d k' := by
+  obtain ⟨b, l₁, l₂, hs, hbb, hbn, hv⟩ := scope_del_shape hok hd
+  simp only [scopeGetItem, hv, hs]
+  rw [findBinding_remove_other l₁ l₂ hbn hk]
+
+/-! ## 3. Text agreement -/
+
+/-- For an aligned set the renderer walks the very list the lookups read, so text and mapping
+    agree — on names (`Coherent`) and, beyond that, item by item. -/
+theorem good_renders_values (s : Node) (h : Good s = true) :
+    renderItems s.setValues s.setOrder = s.setValues := by
+  simp only [Good, Bool.and_eq_true] at h
+  exact renderItems_of_synced h.2
+
+theorem good_coherent (s : Node) (h : Good s = true) : Coherent s := by
+  intro k
+  simp [keysText, keysMap, good_renders_values s h]
+
+theorem goodScope_coherent (d : Doc) (h : GoodScope d = true) : CoherentScope d := by
+  intro k
+  simp only [GoodScope, Bool.and_eq_true] at h
+  simp [keysTextScope, keysMapScope, renderItems_of_synced h.2]
+
+/-- The parser establishes `Good` for every set without attrpath-derived items: there
+    `_collect_attrpath_order` copies `values` item by item (`g` keeps an item or replaces it by an
+    `_AttrpathEntry`), and `_merge_attrpath_bindings` has nothing to merge. -/
+theorem good_of_parse (sid : Nat) (vs : List Node) (m r : Bool) (g : Node → Node)
+    (hg : ∀ v, g v = v ∨ (g v).isEntry = true) (hn : noEntriesL (vs.map g) = true) :
+    Good (.set sid vs (vs.map g) m r) = true := by
+  rw [good_iff]
+  exact ⟨hn, Or.inr (order_eq_values_of_noEntries g vs hg hn)⟩
+
+/-- sets built by `from_dict` / created for missing path segments have no `attrpath_order` -/
+theorem good_of_empty_order (sid : Nat) (vs : List Node) (m r : Bool) :
+    Good (.set sid vs [] m r) = true := by
+  simp [good_iff, noEntriesL, setOrder]
+
+/-- each mapping operation — on ANY set object `s`, wherever it is stored — keeps every set
+    object of the document (and the scope mapping) entry-free and aligned -/
+theorem setitem_preserves (s : Node) (k : Text) (v : Node) (d : Doc)
+    (hv : v.allSets Good = true) (h : DocGood d = true) : DocGood (setSetItem s k v d).2 = true :=
+  docGood_setSetItem s k v d hv h
+
+theorem delitem_preserves (s : Node) (k : Text) (d : Doc) (h : DocGood d = true) :
+    DocGood (setDelItem s k d).2 = true := docGood_setDelItem s k d h
+
+theorem scopeset_preserves (k : Text) (v : Node) (d : Doc) (hv : v.allSets Good = true)
+    (h : DocGood d = true) : DocGood (scopeSetItem k v d).2 = true :=
+  docGood_scopeSetItem k v d hv h
+
+theorem scopedel_preserves (k : Text) (d : Doc) (h : DocGood d = true) :
+    DocGood (scopeDelItem k d).2 = true := docGood_scopeDelItem k d h
+
+theorem op_preserves (op : MapOp) (d : Doc)
+    (hv : ∀ v, op.value? = some v → v.allSets Good = true) (h : DocGood d = true) :
+    DocGood (op.apply d).2 = true := by
+  cases op with
+  | setItem path k v =>
+    simp only [MapOp.apply]
+    split
+    · exact docGood_setSetItem _ k v d (hv v rfl) h
+    · exact h
+  | delItem path k =>
+    simp only [MapOp.apply]
+    split
+    · exact docGood_setDelItem _ k d h
+    · exact h
+  | scopeSet k v => exact docGood_scopeSetItem k v d (hv v rfl) h
+  | scopeDel k => exact docGood_scopeDelItem k d h
+
+/-- hence for every history of mapping operations, of any length, on sets at any depth -/
+theorem history_preserves (ops : List MapOp) (d : Doc)
+    (hv : ∀ op ∈ ops, ∀ v, op.value? = some v → v.allSets Good = true) (h : DocGood d = true) :
+    DocGood (runOps ops d) = true := by
+  induction ops generalizing d with
+  | nil => exact h
+  | cons op ops ih =>
+    simp only [runOps]
+    exact ih _ (fun o ho => hv o (by simp [ho])) (op_preserves op d (hv op (by simp)) h)
+
+/-- … and after it, every set that the mapping API can reach from the document, and the scope
+    mapping, render exactly the names they answer. -/
+theorem history_coherent (ops : List MapOp) (d : Doc)
+    (hv : ∀ op ∈ ops, ∀ v, op.value? = some v → v.allSets Good = true) (h : DocGood d = true) :
+    (∀ path s, reachFrom (runOps ops d).target path = .ok s → s.isSet = true →
+        Coherent s ∧ renderItems s.setValues s.setOrder = s.setValues) ∧
+    CoherentScope (runOps ops d) := by
+  have hg := (docGood_iff _).1 (history_preserves ops d hv h)
+  refine ⟨fun path s hr hs => ?_, goodScope_coherent _ hg.2⟩
+  have ht : (runOps ops d).target.allSets Good = true := by
+    have := hg.1
+    simp only [Doc.allSets, Bool.and_eq_true] at this
+    exact this.1.1.1.1.1
+  have hsg : s.allSets Good = true := reachFrom_allSets path ht hr
+  have : Good s = true := by
+    cases s <;> simp_all [isSet, allSets]
+  exact ⟨good_coherent s this, good_renders_values s this⟩
+
+/-! ### why the invariant speaks of objects and not only of names -/
+
+/-- `Coherent` + `NoEntries` alone is not inductive: if `attrpath_order` holds a *different*
+    binding object with the same name, the names agree, yet `del` removes the binding from
+    `values` only. (No parsed document looks like this; it shows why `Synced` is stated on
+    objects.) -/
+def strayDoc : Doc :=
+  { target := .set 1 [.bind 2 "a".toList false (.atom "1".toList) [] [],
+                      .bind 3 "b".toList false (.atom "1".toList) [] []]
+                     [.bind 7 "a".toList false (.atom "1".toList) [] [],
+                      .bind 3 "b".toList false (.atom "1".toList) [] []] false false, next := 8 }
+
+theorem cex_names_not_inductive :
+    Coherent strayDoc.target ∧ NoEntries strayDoc.target = true ∧
+    ¬ Coherent (setDelItem strayDoc.target "a".toList strayDoc).2.target := by
+  refine ⟨?_, by decide, ?_⟩
+  · intro k
+    have e1 : keysText strayDoc.target = ["a".toList, "b".toList] := by decide
+    have e2 : keysMap strayDoc.target = ["a".toList, "b".toList] := by decide
+    rw [e1, e2]
+  · intro h
+    have := (h "a".toList).1 (by decide)
+    revert this
+    decide
+
+/-! ## 4. FULL statements — false of the current code for attrpath-derived roots -/
+
+/-- deleting through the mapping keeps text and mapping in agreement -/
+def del_keeps_coherence_full : Prop :=
+  ∀ (d : Doc) (k : Text), Coherent d.target → Coherent (setDelItem d.target k d).2.target
+
+/-- an assignment through the mapping that leaves the rendered items (hence the text) as they
+    were leaves the lookup as it was -/
+def set_shows_in_text_full : Prop :=
+  ∀ (d : Doc) (k : Text) (v : Node),
+    let d' := (setSetItem d.target k v d).2
+    renderItems d'.target.setValues d'.target.setOrder =
+        renderItems d.target.setValues d.target.setOrder →
+      setGetItem d'.target k = setGetItem d.target k
+
+/-- `{ a.b = 1; c = 2; }` as parsed: the family `a` is one merged root in `values` and one
+    `_AttrpathEntry` in `attrpath_order`. -/
+def attrDoc : Doc :=
+  { target := .set 1
+      [.bind 2 "a".toList true
+          (.set 3 [.bind 4 "b".toList false (.atom "1".toList) [] []] [] true false) [] [],
+       .bind 5 "c".toList false (.atom "2".toList) [] []]
+      [.entry ["a".toList, "b".toList] (.bind 4 "b".toList false (.atom "1".toList) [] []) (some [])
+          (some []),
+       .bind 5 "c".toList false (.atom "2".toList) [] []] false false,
+    next := 6 }
+
+theorem attrDoc_coherent : Coherent attrDoc.target := by
+  intro k
+  have e1 : keysText attrDoc.target = ["a".toList, "c".toList] := by decide
+  have e2 : keysMap attrDoc.target = ["a".toList, "c".toList] := by decide
+  rw [e1, e2]
+
+/-- Why `Coherent` compares SETS of names: `{ a.b = 1; c = 2; a.d = 3; }` as parsed has one merged
+    root `a` in `values` and two entries in `attrpath_order`; text and mapping agree on the names
+    although the lists differ. -/
+def familyDoc : Doc :=
+  { target := .set 1
+      [.bind 2 "a".toList true
+          (.set 3 [.bind 4 "b".toList false (.atom "1".toList) [] [],
+                   .bind 7 "d".toList false (.atom "3".toList) [] []] [] true false) [] [],
+       .bind 5 "c".toList false (.atom "2".toList) [] []]
+      [.entry ["a".toList, "b".toList] (.bind 4 "b".toList false (.atom "1".toList) [] []) (some [])
+          (some []),
+       .bind 5 "c".toList false (.atom "2".toList) [] [],
+       .entry ["a".toList, "d".toList] (.bind 7 "d".toList false (.atom "3".toList) [] []) (some [])
+          (some [])] false false,
+    next := 8 }
+
+theorem coherent_is_about_sets :
+    Coherent familyDoc.target ∧ keysText familyDoc.target ≠ keysMap familyDoc.target := by
+  refine ⟨?_, by decide⟩
+  intro k
+  have e1 : keysText familyDoc.target = ["a".toList, "c".toList, "a".toList] := by decide
+  have e2 : keysMap familyDoc.target = ["a".toList, "c".toList] := by decide
+  rw [e1, e2]
+  simp only [List.mem_cons, List.not_mem_nil, or_false]
+  constructor
+  · rintro (h | h | h) <;> simp [h]
+  · rintro (h | h) <;> simp [h]
+
+/-- Open known finding C14-attrpath-family-del: `del src["a"]` removes `a` from the mapping, the
+    text still shows `a.b = 1;` (`item is binding` never matches an `_AttrpathEntry`). -/
+theorem cex_del_attrpath_root :
+    (setDelItem attrDoc.target "a".toList attrDoc).1 = .ok () ∧
+    keysMap (setDelItem attrDoc.target "a".toList attrDoc).2.target = ["c".toList] ∧
+    keysText (setDelItem attrDoc.target "a".toList attrDoc).2.target = ["a".toList, "c".toList] := by
+  decide
+
+theorem del_keeps_coherence_full_false : ¬ del_keeps_coherence_full := by
+  intro h
+  have hc := h attrDoc "a".toList attrDoc_coherent
+  have := (hc "a".toList).1 (by rw [cex_del_attrpath_root.2.2]; decide)
+  rw [cex_del_attrpath_root.2.1] at this
+  revert this
+  decide
+
+/-- Open known finding C14-attrpath-family-set: `src["a"] = 5` changes what the mapping answers
+    for `a`; the rendered items are unchanged, so the text still reads `a.b = 1;`. -/
+theorem cex_set_attrpath_root :
+    let d' := (setSetItem attrDoc.target "a".toList (.atom "5".toList) attrDoc).2
+    setGetItem d'.target "a".toList = .ok (.atom "5".toList) ∧
+    setGetItem attrDoc.target "a".toList ≠ .ok (.atom "5".toList) ∧
+    renderItems d'.target.setValues d'.target.setOrder =
+      renderItems attrDoc.target.setValues attrDoc.target.setOrder := by
+  decide
+
+theorem set_shows_in_text_full_false : ¬ set_shows_in_text_full := by
+  intro h
+  have h1 := h attrDoc "a".toList (.atom "5".toList) cex_set_attrpath_root.2.2
+  have h2 := cex_set_attrpath_root
+  simp only at h1 h2
+  rw [h2.1] at h1
+  exact h2.2.1 h1.symm
+
+/-- Same root cause, one level down (C14-attrpath-family-other-keys): `src["a"]["z"] = 5` adds `z`
+    to the merged nested set; the rendered items of the document's set do not change. -/
+theorem cex_set_inside_attrpath_family :
+    ∃ s, reachFrom attrDoc.target ["a".toList] = .ok s ∧
+      let d' := (setSetItem s "z".toList (.atom "5".toList) attrDoc).2
+      (∃ s', reachFrom d'.target ["a".toList] = .ok s' ∧
+        setGetItem s' "z".toList = .ok (.atom "5".toList)) ∧
+      renderItems d'.target.setValues d'.target.setOrder =
+        renderItems attrDoc.target.setValues attrDoc.target.setOrder := by
+  refine ⟨.set 3 [.bind 4 "b".toList false (.atom "1".toList) [] []] [] true false, by decide, ?_⟩
+  refine ⟨⟨.set 3 [.bind 4 "b".toList false (.atom "1".toList) [] [],
+      .bind 6 "z".toList false (.atom "5".toList) [] []] [] true false, by decide, by decide⟩, ?_⟩
+  decide
+
+/-- PARTIAL (what does hold, with the decidable side condition that excludes exactly the
+    attrpath-derived class): on a document all of whose sets are entry-free and aligned, both
+    full statements hold — for the target and, by `history_coherent`, for every reachable set. -/
+theorem del_keeps_coherence_partial (d : Doc) (k : Text) (h : DocGood d = true) :
+    Coherent (setDelItem d.target k d).2.target ∨ (setDelItem d.target k d).2.target.isSet = false := by
+  have hg := (docGood_iff _).1 (docGood_setDelItem d.target k d h)
+  have ht : (setDelItem d.target k d).2.target.allSets Good = true := by
+    have := hg.1
+    simp only [Doc.allSets, Bool.and_eq_true] at this
+    exact this.1.1.1.1.1
+  cases hs : (setDelItem d.target k d).2.target.isSet with
+  | false => exact Or.inr rfl
+  | true =>
+    left
+    apply good_coherent
+    revert ht hs
+    cases (setDelItem d.target k d).2.target <;> simp_all [isSet, allSets]
+
+theorem set_shows_in_text_partial (d : Doc) (k : Text) (v : Node) (hs : d.target.isSet = true)
+    (hv : v.allSets Good = true) (h : DocGood d = true) :
+    let d' := (setSetItem d.target k v d).2
+    renderItems d'.target.setValues d'.target.setOrder = d'.target.setValues ∧
+    setGetItem d'.target k = .ok v := by
+  refine ⟨?_, get_after_set d k v hs⟩
+  have hg := (docGood_iff _).1 (docGood_setSetItem d.target k v d hv h)
+  have ht : (setSetItem d.target k v d).2.target.allSets Good = true := by
+    have := hg.1
+    simp only [Doc.allSets, Bool.and_eq_true] at this
+    exact this.1.1.1.1.1
+  revert ht
+  generalize (setSetItem d.target k v d).2.target = t
+  intro ht
+  cases t with
+  | set sid vs o m r =>
+    apply good_renders_values
+    simp only [allSets, Bool.and_eq_true] at ht
+    exact ht.1.1
+  | _ => simp [renderItems, setValues]
+
+/-! ## Non-vacuity: a three-layer document with nested sets satisfies every hypothesis -/
+
+/-- `let x = 1; in let x = 2; y = { k = 1; }; in let z = 1; in { a = 1; b = { c = 2; }; }` -/
+def exDoc : Doc :=
+  { target := .set 1
+      [.bind 2 "a".toList false (.atom "1".toList) [] [],
+       .bind 3 "b".toList false
+          (.set 4 [.bind 5 "c".toList false (.atom "2".toList) [] []]
+                  [.bind 5 "c".toList false (.atom "2".toList) [] []] false false) [] []]
+      [.bind 2 "a".toList false (.atom "1".toList) [] [],
+       .bind 3 "b".toList false
+          (.set 4 [.bind 5 "c".toList false (.atom "2".toList) [] []]
+                  [.bind 5 "c".toList false (.atom "2".toList) [] []] false false) [] []] false false,
+    scope := [.bind 6 "x".toList false (.atom "1".toList) [] []],
+    stOrder := [.bind 6 "x".toList false (.atom "1".toList) [] []],
+    stack := [
+      { scope := [.bind 7 "x".toList false (.atom "2".toList) [] [],
+                  .bind 8 "y".toList false (.set 9 [.bind 10 "k".toList false (.atom "1".toList) [] []]
+                      [.bind 10 "k".toList false (.atom "1".toList) [] []] false false) [] []],
+        order := [.bind 7 "x".toList false (.atom "2".toList) [] [],
+                  .bind 8 "y".toList false (.set 9 [.bind 10 "k".toList false (.atom "1".toList) [] []]
+                      [.bind 10 "k".toList false (.atom "1".toList) [] []] false false) [] []],
+        bodyBefore := [], bodyAfter := [], afterLet := none },
+      { scope := [.bind 11 "z".toList false (.atom "1".toList) [] []],
+        order := [.bind 11 "z".toList false (.atom "1".toList) [] []],
+        bodyBefore := [], bodyAfter := [], afterLet := none }],
+    next := 12 }
+
+example : DocGood exDoc = true := by decide
+example : DistinctItems exDoc.target.setValues = true ∧ DistinctItems exDoc.scope = true := by decide
+example : PlainKey "a".toList = true ∧ (keysMap exDoc.target).count "a".toList ≤ 1 :=
+  ⟨plainKey_of_simple _ (by decide), by decide⟩
+/-- a history that sets, nests, deletes and touches the scope mapping -/
+def exOps : List MapOp :=
+  [.setItem [] "n".toList (.set 50 [] [] true false), .setItem ["n".toList] "q".toList (.atom "7".toList),
+   .delItem [] "a".toList, .setItem ["b".toList] "c".toList (.atom "9".toList),
+   .scopeSet "w".toList (.atom "3".toList), .scopeDel "x".toList, .delItem ["b".toList] "zz".toList]
+example : ∀ op ∈ exOps, ∀ v, op.value? = some v → v.allSets Good = true := by decide
+example : keysMap (runOps exOps exDoc).target = ["b".toList, "n".toList] ∧
+    keysText (runOps exOps exDoc).target = ["b".toList, "n".toList] ∧
+    keysTextScope (runOps exOps exDoc) = ["w".toList] := by decide
+
 end Nima.C14
